@@ -612,9 +612,13 @@ def run(ctx):
         ctx.violation(k, what, replay)
     if inconclusive or missing:
         msg = "extraction incomplete: " + "; ".join(inconclusive + ["missing " + m for m in missing])
-        if not ctx.violations:
+        # A refactoring that moves a fan-out into a shared helper or renames a method leaves some lock programs without a
+        # source: those methods are then judged by the stress driver alone (it ran them: every scenario has its op floors).
+        # Only when a large part of the targets is gone is there nothing left of the model-side part - no verdict then.
+        if not ctx.violations and len(inconclusive) + len(missing) > 12:
             raise Inconclusive(msg)
-        log("INCONCLUSIVE-NOTE property=C20: " + msg)
+        log("INCONCLUSIVE-NOTE property=C20: " + msg + " - these methods were judged by the stress driver only")
+        notes["lock_programs_not_extracted"] = len(inconclusive) + len(missing)
     if not ctx.violations:
         # only now: nothing was observed, so a scenario that could not be set up or did not do its work makes the run inconclusive
         if setup_errors:
